@@ -434,6 +434,9 @@ func (p *PX) term(v ssa.Value, fr *pxFrame, st *pxState) *Term {
 		return &Term{K: TLeaf, V: v, T: v.Type(), key: fmt.Sprintf("fld(%s,.%d)", a.key, x.Field)}
 	case *ssa.IndexAddr:
 		a, i := p.term(x.X, fr, st), p.term(x.Index, fr, st)
+		if isPrefixTerm(a) {
+			a = a.Args[0] // an element of arr[:k] is the element of arr
+		}
 		if t := p.roIndexAddr(a, i, v.Type()); t != nil {
 			return t
 		}
@@ -497,6 +500,10 @@ func (p *PX) term(v ssa.Value, fr *pxFrame, st *pxState) *Term {
 		if al, ok := wholeLocalArray(x); ok {
 			return p.term(al, fr, st)
 		}
+		// `arr[:k]`: the first k cells of the array (pxlocalarray.go)
+		if al, ok := prefixOfLocalArray(x); ok && !p.views {
+			return p.prefixTerm(x, al, fr, st)
+		}
 	case *ssa.Call:
 		if t, ok := st.vals[p.reg(fr, v)]; ok {
 			return t
@@ -511,6 +518,17 @@ func (p *PX) term(v ssa.Value, fr *pxFrame, st *pxState) *Term {
 				return p.term(ms.Len, fr, st)
 			}
 			a := p.term(c.Args[0], fr, st)
+			// a slice made on this path and carried here by a variable cell (a captured
+			// `fldList` assigned by one closure, measured by the next): the length it was made
+			// with — a slice value never changes its length
+			if _, isMk := a.V.(*ssa.MakeSlice); isMk && a.K == TLeaf && !p.views {
+				if ml, ok := st.vals["mklenx:"+a.key]; ok {
+					return ml
+				}
+			}
+			if isPrefixTerm(a) {
+				return a.Args[1] // len(arr[:k]) = k
+			}
 			if al, ok := a.V.(*ssa.Alloc); ok && a.K == TLeaf && !p.views {
 				if n, ok := localArrayLen(al); ok && isSliceOrArrayPtr(c.Args[0].Type()) {
 					nb := big.NewInt(n)
